@@ -108,7 +108,8 @@ class Leaf:
             out += [(1,) * r, P[::-1]] + [tuple(rng.randint(1, 4) for _ in range(r)) for _ in range(4 if many else 2)]
         elif k in ('bd', 'dy'):
             out += [(1,) * r, P[::-1]] + [tuple(rng.randint(1, 4) for _ in range(r)) for _ in range(3 if many else 1)]
-            out += [(rng.randint(1, 5),), tuple(rng.randint(1, 3) for _ in range(r + 1))]
+            # ranks up to the bound of a bounded-dim leaf (r + 1) matter: the inferred bounds must still hold there
+            out += [(rng.randint(1, 5),), tuple(rng.randint(1, 3) for _ in range(r + 1)), (1,) * r + (2,), (2,) + (1,) * r]
             if k == 'dy':
                 out += [tuple(rng.randint(1, 2) for _ in range(r + 2))]
         seen = []
